@@ -44,6 +44,10 @@ class _Inject(Exception):
     pass
 
 
+def _group_contains(group, exc) -> bool:
+    return any(e is exc or (isinstance(e, BaseExceptionGroup) and _group_contains(e, exc)) for e in group.exceptions)
+
+
 class _Session:
     """One run of one session (fault-free or with one injected exception)."""
 
@@ -55,6 +59,7 @@ class _Session:
         self.counts = dict.fromkeys(CATS, 0)
         self.calls: list = []
         self.injected = None  # (exc object, cat, idx)
+        self.second = None  # ExitMainLoop raised by a later callback of the same turn (fault key "then_exit")
         self.in_run = False
         self.harness_render = False
         self.quit_raised = False
@@ -83,6 +88,15 @@ class _Session:
         self.world.log.add("cb", [cat, i])
         if self.injected is not None and cat != "render":
             self.res.probe("callback_after_injection")
+            if self.fault is not None and self.fault.get("then_exit") and self.second is None and not self.quit_raised and not isinstance(self.injected[0], (KeyboardInterrupt,)):
+                # a callback the loop had already dequeued for the same turn still runs after the first exception and
+                # ends the session "cleanly": the first, ordinary exception must still come out of run()
+                import urwid  # noqa: PLC0415
+
+                self.second = urwid.ExitMainLoop()
+                self.world.log.add("inject", [cat, i, "exit-after-exception"])
+                self.res.fault("raise_exit_after_exception_same_turn")
+                raise self.second
         f = self.fault
         if self.quit_raised:
             return  # the session's own ExitMainLoop is already in flight: a second exception is unconstrained
@@ -513,7 +527,9 @@ class _Session:
                 else:
                     self.violate("C12.3", f"run-raised-other:{core.exc_signature(exc)}", core.format_exc(exc))
         elif how == "returned":
-            self.violate("C12.3", "injected-exception-swallowed", repr(inj))
+            self.violate("C12.3", "injected-exception-swallowed" + ("-after-a-later-callback-raised-ExitMainLoop" if self.second is not None else ""), repr(inj))
+        elif self.second is not None and isinstance(exc, BaseExceptionGroup) and _group_contains(exc, inj):
+            self.res.probe("two_exceptions_reported_as_group")  # trio reports concurrent failures together
         elif exc is not inj:
             if core.raised_in_harness(exc) and not isinstance(exc, (Boom, ValueError, KeyboardInterrupt)):
                 raise core.HarnessError(f"harness exception inside run(): {core.format_exc(exc)}") from exc
@@ -776,6 +792,12 @@ class SessionEngine(Engine):
                 # deterministic thinning: keep first and last index of each category, stride the rest
                 stride = (len(plan) + cap - 1) // cap
                 plan = plan[::stride]
+            # double faults: an ordinary exception, then ExitMainLoop from the next callback that still runs
+            for cat in ("alarm", "watch_file", "watch_pipe", "filter", "keypress", "unhandled"):
+                if base.counts[cat]:
+                    plan.append({"cat": cat, "idx": 0, "exc": "boom", "then_exit": True})
+                    if base.counts[cat] > 1:
+                        plan.append({"cat": cat, "idx": base.counts[cat] - 1, "exc": "value", "then_exit": True})
             faults = plan
         for f in faults or []:
             if f is None:
